@@ -228,6 +228,14 @@ fn spawn_server(ex: &mut Exec, net: &Shared, rec: &Rc<RefCell<Rec>>, plans: Rc<V
                                 }
                             }
                         }
+                        if failed && draw(2) == 1 {
+                            // an application (or a generic body adapter) that asks the failed request once more before it
+                            // gives up: whatever the calls answer, the fault stays this request's own
+                            obs::count("probe.failed_request_polled_again");
+                            // (only the call that failed: recv_trailers() while a DATA frame is unfinished is outside the
+                            //  documented pattern and trips FrameStream's own assertion - DESIGN 7.3)
+                            let _ = s.recv_data().await;
+                        }
                         if failed {
                             // what the application does with the faulty handle afterwards is drawn
                             match after {
@@ -485,6 +493,11 @@ fn spawn_client(ex: &mut Exec, net: &Shared, rec: &Rc<RefCell<Rec>>, n: usize, r
                         }
                         Err(e) => {
                             rec.borrow_mut().reqs[i].data_end = Some(Err(sout(&e)));
+                            if draw(2) == 1 {
+                                // asked once more before giving up (see the server application)
+                                obs::count("probe.failed_request_polled_again");
+                                let _ = rx.recv_data().await;
+                            }
                             return;
                         }
                     }
@@ -603,7 +616,7 @@ impl Check for C07 {
     fn meta(&self) -> Meta {
         Meta {
             level: "exploration",
-            rule: "2-4 concurrent requests between the real endpoint under test (server role or client role) and a reference peer; a drawn subset (possibly empty, possibly all) suffers exactly one stream-scoped fault: RESET(any code) at a drawn byte offset of the peer's sending side incl. just past the last byte (RESET instead of FIN), STOP_SENDING(any code) against h3's sending side at a drawn script position, a validly encoded but malformed message (upper-case name, bad value byte, unknown pseudo-header, missing :method/:status, contradictory authority, empty field name, blank in a name), a field section one over the limit, FIN before HEADERS (server role); the others carry generated messages that are echoed; what the application does with a faulty handle afterwards (drop, finish, retry a send) is drawn; all interleavings of request tasks, deliveries and the fault are drawn; non-trivial = at least one fault and one healthy request and >= 2 chunk deliveries; distinct = distinct schedule signatures",
+            rule: "2-4 concurrent requests between the real endpoint under test (server role or client role) and a reference peer; a drawn subset (possibly empty, possibly all) suffers exactly one stream-scoped fault: RESET(any code) at a drawn byte offset of the peer's sending side incl. just past the last byte (RESET instead of FIN), STOP_SENDING(any code) against h3's sending side at a drawn script position, a validly encoded but malformed message (upper-case name, bad value byte, unknown pseudo-header, missing :method/:status, contradictory authority, empty field name, blank in a name), a field section one over the limit, FIN before HEADERS (server role); the others carry generated messages that are echoed; what the application does with a faulty handle afterwards (one time in two it first calls recv_data once more; then drop, finish, retry a send) is drawn; all interleavings of request tasks, deliveries and the fault are drawn; non-trivial = at least one fault and one healthy request and >= 2 chunk deliveries; distinct = distinct schedule signatures",
             real: &["h3 server (Connection, RequestResolver, RequestStream) / h3 client (Connection driver, SendRequest, split RequestStream halves)", "h3 connection/frame/stream/qpack/proto modules, error propagation"],
             stub: &["QUIC transport (SimQuic)", "executor (simexec)", "reference peer (script + reference codecs, reads h3's output from the wire log)", "applications (echo server / concurrent client requests)"],
             assumptions: &["client role: the wire codes of stop_sending after a malformed/oversized response are not judged", "a STOP_SENDING that arrives after h3 finished sending legitimately goes unnoticed"],
